@@ -205,25 +205,26 @@ Definition gfx_pattern : list Z :=
 Definition cmp_bytes (model obs : list Z) : sexp :=
   if bytes_eqb model obs then v_ok true else v_mismatch (B model).
 
+Definition judge_hist3 (lines sb ss sj : list sexp) : sexp :=
+  match dec_lines lines, dec_steps sb, dec_steps ss, dec_steps sj with
+  | Some ls, Some b, Some st, Some j =>
+    let vb := judge_hist DBatch ls b (fun _ _ => None) in
+    let vs := judge_hist DStream ls st (fun _ _ => None) in
+    let vj := judge_hist DSer ls j (fun _ _ => None) in
+    let is_ok v := match v with L (S k :: _) => bytes_eqb k (str "ok") | _ => false end in
+    let tagd (d : string) v := match v with L xs => L (xs ++ [sym d]) | _ => v end in
+    if negb (is_ok vb) then tagd "batch" vb
+    else if negb (is_ok vs) then tagd "stream" vs
+    else if negb (is_ok vj) then tagd "ser" vj
+    else v_ok (negb (is_nil (List.concat (map fst b))) || negb (is_nil (List.concat (map fst st))))
+  | _, _, _, _ => v_badcase
+  end.
+
 Definition run_case (s : sexp) : sexp :=
   match s with
   | L [S n; L lines; L sb; L ss; L sj] =>
     (* one history under the three disciplines *)
-    if bytes_eqb n (str "hist3") then
-      match dec_lines lines, dec_steps sb, dec_steps ss, dec_steps sj with
-      | Some ls, Some b, Some st, Some j =>
-        let vb := judge_hist DBatch ls b (fun _ _ => None) in
-        let vs := judge_hist DStream ls st (fun _ _ => None) in
-        let vj := judge_hist DSer ls j (fun _ _ => None) in
-        let is_ok v := match v with L (S k :: _) => bytes_eqb k (str "ok") | _ => false end in
-        let tagd (d : string) v := match v with L xs => L (xs ++ [sym d]) | _ => v end in
-        if negb (is_ok vb) then tagd "batch" vb
-        else if negb (is_ok vs) then tagd "stream" vs
-        else if negb (is_ok vj) then tagd "ser" vj
-        else v_ok (negb (is_nil (List.concat (map fst b))) || negb (is_nil (List.concat (map fst st))))
-      | _, _, _, _ => v_badcase
-      end
-    else v_badcase
+    if bytes_eqb n (str "hist3") then judge_hist3 lines sb ss sj else v_badcase
   | L [S n; dsx; L lines; L steps] =>
     if bytes_eqb n (str "hist") then
       match dec_disc dsx, dec_lines lines, dec_steps steps with
@@ -232,6 +233,12 @@ Definition run_case (s : sexp) : sexp :=
       end
     else v_badcase
   | L [S n; dsx; L gx; L ids; L lines; L steps] =>
+    (* (hist3c (lines) (companion lines) batch stream ser): the history was fed while ANOTHER reader
+       object and other decoder calls were working on the companion lines in between; the judgement is
+       that of hist3 - one reader / one call is not influenced by another *)
+    if bytes_eqb n (str "hist3c") then
+      match dsx with L ls => judge_hist3 ls ids lines steps | _ => v_badcase end
+    else
     if bytes_eqb n (str "clean") then
       match dec_disc dsx, dec_gfx gx, get_ints ids, dec_lines lines, dec_steps steps with
       | Some d, Some g, Some ids, Some ls, Some st => judge_hist d ls st (judge_clean g ids ls)
